@@ -19,7 +19,10 @@
    Headers, libraries and directories are identifiers (N); what a directory is written as (a path under
    an install root, srcdir or builddir) is a parameter.  Not modelled: requires (Misc/Versions.v),
    system packages (extra_pkgs), Option objects other than strings among the (link) options,
-   DualUseLibrary, mach-o install_names. *)
+   mach-o install_names.  A DualUseLibrary is one more library identifier (the harness numbers the
+   dual object and its two halves separately): _library passes it through unchanged, its
+   forward_opts are those of its static half (parameters deps / fwd / lopts), and the writer takes
+   the directory of its first (shared) file (parameter libdir). *)
 From BFG Require Import Base.Chars Graph.LinkOrder Misc.PcFile.
 Local Open Scope N_scope.
 
